@@ -110,6 +110,8 @@ def main():
 
     def m_as_str(e, m, a):
         s = e.read_path(a[0].frame, a[0].local, list(a[0].proj))
+        if isinstance(s, tuple) and s[0] == "abs_string":
+            return Ref({0: s}, 0, ())
         return ("str", s[1].encode())
 
     def m_str_eq(e, m, a):
@@ -241,7 +243,79 @@ def main():
         l, r = deref(e, a[0]), deref(e, a[1])
         return (l[1] == r[1]) if m.group(1) == "eq" else (l[1] != r[1])
 
+    def m_arc_deref(e, m, a):
+        v = deref(e, a[0])
+        return Ref({0: v[1]}, 0, ()) if isinstance(v, tuple) and v[0] == "arc" else a[0]
+
+    def m_slice_get(e, m, a):
+        v = deref(e, a[0])
+        items = v[1]
+        k = a[1]
+        if is_sym(k):
+            for j in range(len(items)):
+                if e.decide(k == j):
+                    return ("Some", Ref({0: items[j]}, 0, ()))
+            e.solver.add(z3.Or(k < 0, k >= len(items)))
+            return ("None",)
+        return ("Some", Ref({0: items[k]}, 0, ())) if 0 <= k < len(items) else ("None",)
+
+    def m_opt_cloned(e, m, a):
+        o = a[0]
+        return ("Some", deref(e, o[1])) if o[0] == "Some" else o
+
+    def m_str_get_range(e, m, a):
+        s_, rng = deref(e, a[0]), a[1]
+        cur["node"].events.append(("str_get", rng[0], rng[1]))
+        b = z3.Bool("str_get_is_some_%d" % len(cur["node"].events))
+        if e.decide(b):
+            return ("Some", ("abs_substr", s_, rng[0], rng[1]))
+        return ("None",)
+
+    def m_str_index_range(e, m, a):
+        # slicing panics exactly where str::get would return None (out of range, not a char boundary)
+        r = m_str_get_range(e, m, a)
+        if r[0] == "None":
+            e.violations.append({"kind": "panic", "message": "string slice index is out of range or not on a char boundary", "function": "index", "model": e.model_inputs() if e.check() else None})
+            raise PanicFound("str slicing", None)
+        return r[1]
+
+    def m_map_get(e, m, a):
+        mp, key = deref(e, a[0]), deref(e, a[1])
+        cur["node"].events.append(("map_get", mp, key))
+        b = z3.Bool("map_get_is_some_%d" % len(cur["node"].events))
+        if e.decide(b):
+            return ("Some", Ref({0: ("abs_val", "found")}, 0, ()))
+        return ("None",)
+
+    def m_sym_bool(tag):
+        def f(e, m, a):
+            x, y = deref(e, a[0]), deref(e, a[1])
+            cur["node"].events.append((tag, x, y))
+            return z3.Bool("%s_%d" % (tag, len(cur["node"].events)))
+        return f
+
+    def m_into_key(e, m, a):
+        k = {"Arc<std::string::String>": "String", "bool": "Bool", "i64": "Int", "u64": "Uint"}[m.group(1)]
+        return ("enum", "Key::" + k, [a[0]])
+
     extern = [
+        (r"^<Arc<(?:Vec<Value>|std::string::String|HashMap<Key, Value>)> as Deref>::deref$", m_arc_deref),
+        (r"^<Vec<Value> as Deref>::deref$", lambda e, m, a: a[0]),
+        (r"^core::slice::<impl \[Value\]>::get::<usize>$", m_slice_get),
+        (r"^std::option::Option::<&Value>::cloned$", m_opt_cloned),
+        (r"^std::option::Option::<Value>::unwrap_or$", lambda e, m, a: a[0][1] if a[0][0] == "Some" else a[1]),
+        (r"^core::str::<impl str>::get::<std::ops::Range<usize>>$", m_str_get_range),
+        (r"^<str as Index<std::ops::Range<usize>>>::index$", m_str_index_range),
+        (r"^<std::string::String as Index<std::ops::Range<usize>>>::index$", m_str_index_range),
+        (r"^<str as ToString>::to_string$", lambda e, m, a: ("string_of", a[0])),
+        (r"^(?:objects::)?Map::get$", m_map_get),
+        (r"^HashMap::<Key, Value>::contains_key::<Key>$", m_sym_bool("contains_key")),
+        (r"^core::slice::<impl \[Value\]>::contains$", m_sym_bool("list_contains")),
+        (r"^core::str::<impl str>::contains::<&(?:str|std::string::String)>$", m_sym_bool("str_contains")),
+        (r"^core::str::<impl str>::len$", lambda e, m, a: z3.Int("strlen")),
+        (r"^std::string::String::len$", lambda e, m, a: z3.Int("strlen")),
+        (r"^<(Arc<std::string::String>|bool|i64|u64) as (?:std::convert::)?Into<Key>>::into$", m_into_key),
+        (r"^<&std::string::String as Deref>::deref$", lambda e, m, a: deref(e, a[0])),
         (r"^std::option::Option::<&Box<dyn .*>>::ok_or_else::<ExecutionError, \{closure@.*\}>$", m_ok_or_else),
         (r"^<std::string::String as Clone>::clone$", m_clone_identity),
         (r"^<std::string::String as (?:std::convert::)?Into<Arc<std::string::String>>>::into$", lambda e, m, a: a[0]),
@@ -297,6 +371,7 @@ def main():
         e.model_inputs = model_inputs
         e.unit_variants = {k: ("enum", "Ordering", [v]) for k, v in (("Less", -1), ("Equal", 0), ("Greater", 1))}
         e.unit_variants.update({"std::cmp::Ordering::" + k: v for k, v in list(e.unit_variants.items())})
+        e.unit_variants.update({"Value::Null": ("enum", "Value::Null", []), "objects::Value::Null": ("enum", "Value::Null", [])})
         return e
 
     # ---------------- scenarios
@@ -310,6 +385,11 @@ def main():
             "int": ("enum", "Result::Ok", [("enum", "Value::Int", [pay_i])]),
             "uint": ("enum", "Result::Ok", [("enum", "Value::UInt", [pay_i])]),
             "null": ("enum", "Result::Ok", [("enum", "Value::Null", [])]),
+            # heap-backed kinds, used by the index / membership scenarios: a list of two abstract
+            # elements, an abstract string, an abstract map
+            "list": ("enum", "Result::Ok", [("enum", "Value::List", [("arc", ("vecv", [("abs_val", "l%d_0" % k), ("abs_val", "l%d_1" % k)]))])]),
+            "string": ("enum", "Result::Ok", [("enum", "Value::String", [("arc", ("abs_string", "s%d" % k))])]),
+            "map": ("enum", "Result::Ok", [("enum", "Value::Map", [[("arc", ("abs_map", "m%d" % k))]])]),
         }
     R = [results_for(0, i0, b0), results_for(1, i1, b1), results_for(2, i2, b2)]
     base = [i0 >= -2 ** 63, i0 <= 2 ** 63 - 1, i1 >= -2 ** 63, i1 <= 2 ** 63 - 1, i2 >= -2 ** 63, i2 <= 2 ** 63 - 1]
@@ -320,7 +400,7 @@ def main():
     binary = ["ADD", "SUBSTRACT", "MULTIPLY", "DIVIDE", "MODULO", "EQUALS", "NOT_EQUALS", "LESS", "LESS_EQUALS", "GREATER",
               "GREATER_EQUALS", "LOGICAL_OR", "LOGICAL_AND"]
     unary = ["LOGICAL_NOT", "NEGATE", "NOT_STRICTLY_FALSE"]
-    missing = [o for o in binary + unary + ["CONDITIONAL"] if o not in ops]
+    missing = [o for o in binary + unary + ["CONDITIONAL", "INDEX", "IN"] if o not in ops]
     if missing:
         print("INCONCLUSIVE: operator constants not found: %s" % missing)
         return 2
@@ -523,6 +603,103 @@ def main():
         stats["solver_s"] += eng.stats["solver_s"]
         stats["functions"] |= eng.stats["functions"]
 
+    def run_access_scenario(opc, lk, rk):
+        """index `a[b]` and membership `a in b` on heap-backed operands"""
+        nonlocal status
+        name = ops[opc]
+        node = Node(name, [R[0][lk], R[1][rk], R[2]["null"]])
+        expr = [7, ("enum", "Expr::Call", [[("string", name), ("None",), ("vec", [operand_expr(0, "call"), operand_expr(1, "call")])]])]
+        pseudo = {0: expr}
+        eng = new_engine()
+        eng.discriminants.update({"Key::Int": 0, "Key::Uint": 1, "Key::Bool": 2, "Key::String": 3})
+        stats["scenarios"] += 1
+        desc = {"operator": name, "opcode": opc, "operands": [lk, rk]}
+
+        def entry(e):
+            cur.clear()
+            cur.update({"node": node, "eq": eq_sym, "cmp_some": cmp_some, "ord": ord_sym, "ident_owner": {}})
+            node.events = []
+            return e.call_fn(fn, [Ref(pseudo, 0, ()), Opaque("ctx")])
+
+        def val_of(k, kind):
+            return R[k][kind][2][0]
+
+        def on_path(res, e):
+            probs = []
+            evs = [x[1] for x in node.events if x[0] == "resolve"]
+            aux = [x for x in node.events if x[0] in ("map_get", "list_contains", "str_contains", "str_get", "contains_key")]
+            if lk == "err":
+                want_ev, ok = [0], surely(same(res, R[0]["err"]))
+            elif rk == "err":
+                want_ev, ok = [0, 1], surely(same(res, R[1]["err"]))
+            else:
+                want_ev = [0, 1]
+                a, b = val_of(0, lk), val_of(1, rk)
+                okv = lambda v: surely(same(res, ("enum", "Result::Ok", [v])))
+                isnull = okv(("enum", "Value::Null", []))
+                key_kinds = {"int": "Key::Int", "uint": "Key::Uint", "bool": "Key::Bool", "string": "Key::String"}
+                if opc == "INDEX":
+                    if lk == "list" and rk == "int":
+                        idx = b[2][0]
+                        items = a[2][0][1][1]
+                        hit = [j for j in range(len(items)) if e.check(idx == j) and not e.check(idx != j)]
+                        ok = okv(items[hit[0]]) if hit else (isnull and not e.check(z3.And(idx >= 0, idx < len(items))))
+                    elif lk == "string" and rk == "int":
+                        got_some = [x for x in aux if x[0] == "str_get"]
+                        ok = len(got_some) == 1 and (isnull or (res[1] == "Result::Ok" and res[2][0][1] == "Value::String"))
+                    elif lk == "map" and rk in key_kinds:
+                        mg = [x for x in aux if x[0] == "map_get"]
+                        ok = len(mg) == 1 and surely(same(mg[0][2], ("enum", key_kinds[rk], [b[2][0]]))) and (isnull or okv(("abs_val", "found")))
+                        if isnull and mg and e.check(z3.Bool("map_get_is_some_%d" % (node.events.index(mg[0]) + 1))):
+                            ok = False
+                    elif lk == "map":
+                        ok = res[1] == "Result::Err" and res[2][0][1] == "ExecutionError::UnsupportedMapIndex"
+                    elif lk == "list":
+                        ok = res[1] == "Result::Err" and res[2][0][1] == "ExecutionError::UnsupportedListIndex"
+                    else:
+                        ok = res[1] == "Result::Err" and res[2][0][1] == "ExecutionError::UnsupportedIndex"
+                else:  # IN
+                    if lk == "string" and rk == "string":
+                        sc = [x for x in aux if x[0] == "str_contains"]
+                        ok = len(sc) == 1 and res[1] == "Result::Ok" and res[2][0][1] == "Value::Bool"
+                    elif rk == "list":
+                        lc = [x for x in aux if x[0] == "list_contains"]
+                        ok = len(lc) == 1 and surely(same(lc[0][2], a)) and res[1] == "Result::Ok" and res[2][0][1] == "Value::Bool"
+                    elif rk == "map":
+                        mg = [x for x in aux if x[0] in ("map_get", "contains_key")]
+                        if lk in key_kinds:
+                            # presence must be asked through Map::get (which knows int/uint twins), with the key built from the left operand
+                            ok = len(mg) == 1 and mg[0][0] == "map_get" and surely(same(mg[0][2], ("enum", key_kinds[lk], [a[2][0]]))) \
+                                and res[1] == "Result::Ok" and res[2][0][1] == "Value::Bool"
+                        else:
+                            ok = not mg and okv(("enum", "Value::Bool", [False]))
+                    else:
+                        ok = res[1] == "Result::Err" and res[2][0][1] == "ExecutionError::ValuesNotComparable"
+            if evs != want_ev:
+                probs.append("operand evaluations %s, expected %s" % (evs, want_ev))
+            if not ok:
+                probs.append("result %r / lookups %s are not the specified ones" % (str(res)[:300], [x[0] for x in aux]))
+            if probs:
+                failures.append(dict(desc, problems=probs, events=[str(x)[:120] for x in node.events], replay=None, access_replay=[order_access(opc), lk, rk]))
+            else:
+                stats["proved"] += 1
+                if len(samples) < 60 and stats["scenarios"] % 5 == 0:
+                    samples.append(dict(desc, events=[str(x)[:80] for x in node.events], result=res[1]))
+        try:
+            eng.explore(entry, None, on_path, base + [z3.Int("strlen") >= 0])
+        except PanicFound as p:
+            failures.append(dict(desc, problems=["panic reachable: %s" % p.msg], panics=eng.violations[:2], replay=None, access_replay=[order_access(opc), lk, rk]))
+        if eng.violations and not (failures and failures[-1].get("panics") and failures[-1].get("operands") == [lk, rk]):
+            failures.append(dict(desc, problems=["panic reachable: %s" % eng.violations[0]["message"]], panics=eng.violations[:2], replay=None,
+                                 access_replay=[order_access(opc), lk, rk]))
+        for k in ("paths", "queries", "assert_obligations"):
+            stats[k] += eng.stats[k]
+        stats["solver_s"] += eng.stats["solver_s"]
+        stats["functions"] |= eng.stats["functions"]
+
+    def order_access(opc):
+        return 0 if opc == "INDEX" else 1
+
     def run_call_scenario(nargs, has_target, declared, target_kind, name="f"):
         """a call to a non-operator function"""
         nonlocal status
@@ -592,6 +769,11 @@ def main():
         stats["functions"] |= eng.stats["functions"]
 
     try:
+        akinds = ["err", "int", "uint", "bool", "null", "string", "list", "map"]
+        for opc in ("INDEX", "IN"):
+            for lk in akinds:
+                for rk in akinds:
+                    run_access_scenario(opc, lk, rk)
         for nargs in range(0, 4):
             for has_target in (False, True):
                 for declared in (True, False):
@@ -632,7 +814,7 @@ def main():
              "GREATER_EQUALS", "LOGICAL_OR", "LOGICAL_AND", "LOGICAL_NOT", "NEGATE", "NOT_STRICTLY_FALSE", "CONDITIONAL"]
     kc = {"err": 0, "bool": 1, "int": 2, "uint": 3, "null": 4}
     for f in out["failures"]:
-        if f.get("replay") is None and f.get("panics") and f["panics"][0].get("model"):
+        if f.get("replay") is None and f.get("panics") and f["panics"][0].get("model") and f.get("opcode") in order:
             mdl = f["panics"][0]["model"]
             f["replay"] = {"op": order.index(f["opcode"]), "kinds": [kc[x] for x in f["operands"]] + [4] * (3 - len(f["operands"])),
                            "ints": mdl["ints"], "bools": mdl["bools"], "shapes": [0, 0, 0]}
